@@ -236,6 +236,39 @@ pub fn families(tier: Tier) -> Vec<(&'static str, Vec<Built>)> {
     out
 }
 
+/// Edge shapes of well-formed models that the pattern-pool families do not produce: a window of 0
+/// (what training with --charw 0 / --typew 0 yields: dictionary words do not depend on the
+/// window), a single kind of pattern only, no pattern at all.
+pub fn edge_family() -> Vec<(String, ModelSpec)> {
+    let mut models = vec![];
+    let d = |s: &str| Entry::Dict(s.to_string());
+    let c = |s: &str| Entry::Char(s.to_string());
+    let t = |v: &[u8]| Entry::Type(v.to_vec());
+    let edge: Vec<(u8, u8, Vec<Entry>)> = vec![
+        (0, 0, vec![d("a"), d("ab")]),
+        (0, 2, vec![d("あa"), t(&[2, 3])]),
+        (0, 3, vec![d("b"), t(&[2]), t(&[3, 2, 2])]),
+        (2, 0, vec![c("a"), c("ab"), d("ba")]),
+        (1, 0, vec![c("あ")]),
+        (0, 0, vec![]),
+        (2, 2, vec![d("abab"), d("bab"), d("ab"), d("b")]),
+        (3, 3, vec![t(&[2, 2, 3]), t(&[2, 3]), t(&[3])]),
+        (4, 4, vec![t(&[2, 2, 3]), t(&[2, 3]), c("ab")]),
+    ];
+    for (wc, wt, entries) in edge {
+        for (bias, scheme) in [(0, 0u8), (1, 2), (-3, 1)] {
+            for tags in [false, true] {
+                if tags && (wc == 0 || wt == 0) {
+                    continue; // attach_tags uses relative positions up to 1: keep them inside the window
+                }
+                let b = mk(&entries, wc, wt, bias, scheme, tags);
+                models.push((format!("edge {}", b.desc), b.spec));
+            }
+        }
+    }
+    models
+}
+
 /// F3: large windows; single- and two-entry models; long runs.
 fn f3(tier: Tier) -> (Vec<Built>, Vec<Vec<char>>) {
     let mut ms = vec![];
@@ -318,6 +351,10 @@ pub fn run(tier: Tier) -> ! {
         fam_counts.insert(name.to_string(), json!(ms.len()));
         ms.par_iter().enumerate().for_each(|(i, b)| check_model(&chk, b, &texts, i % 4 == 0 || !b.spec.tag_models.is_empty()));
     }
+    // F5: edge shapes (window 0 with a dictionary, single-kind models, the empty model)
+    let f5: Vec<Built> = edge_family().into_iter().map(|(desc, spec)| Built { spec, desc }).collect();
+    fam_counts.insert("F5-edge-shapes".into(), json!(f5.len()));
+    f5.par_iter().for_each(|b| check_model(&chk, b, &texts, true));
     let (ms, t3) = f3(tier);
     fam_counts.insert("F3-large-windows".into(), json!(ms.len()));
     chk.set("f3_texts", json!(t3.len()));
